@@ -1,0 +1,8 @@
+//! Verification hook for property C21 (compiled only with `--cfg libp2p_verif`): exposes the
+//! private `signature_payload` so that the harness can compare the exact signed bytes with the
+//! Lean model `C21.signaturePayload`. Only *calls* the existing private function.
+
+/// The bytes that `SignedEnvelope::new` signs and `SignedEnvelope::verify` checks.
+pub fn verif_signature_payload(domain: String, payload_type: &[u8], payload: &[u8]) -> Vec<u8> {
+    super::signature_payload(domain, payload_type, payload)
+}
